@@ -173,17 +173,27 @@ def describe(st):
 def report(ctx, pid, res, origin):
     """Attribute confirmed mismatches; returns number of deviations that belong to other properties."""
     other = 0
+    runs_lines = None
     for i, mm in enumerate(res.get("mismatches") or []):
         p = ctx.save_replay("%s-%d.json" % (origin, i), mm)
-        beh = mm.get("behaviour") or []
         k = mm.get("step", 0)
-        before = sorted(((beh[k - 1].get("exp") or {}).get("kf") or [])) if 0 < k <= len(beh) else []
+        beh = []
+        try:
+            if runs_lines is None:
+                runs_lines = open(res["runs_file"]).read().splitlines()
+            beh = json.loads(runs_lines[mm["index"]])
+        except Exception:
+            beh = mm.get("behaviour") or []
+        bexp = (beh[k - 1].get("exp") or {}) if 0 < k <= len(beh) else {}
+        before = sorted(bexp.get("kf") or [])
+        broken = sorted(i for i, v in (bexp.get("inv") or {}).items() if v is False)
         listed = {f.get("id") for f in vf.load_known_findings().get("findings", [])}
-        if before and all(x in listed for x in before):
-            # the trigger of a recorded defect occurred earlier in this behaviour: from there on the real nodes are
-            # in a state the specification does not define (e.g. a follower that lost an entry it had acknowledged)
-            ctx.log("deviation after the trigger of known finding(s) %s (not judged): step %d (%s) field '%s': %s" %
-                    (before, k, mm["action"], mm["field"], mm["what"][:300]))
+        if before and broken and all(x in listed for x in before):
+            # a recorded defect has been triggered earlier in this behaviour AND the state the specification expects
+            # already violates an invariant (e.g. a follower lost an entry it had acknowledged): what the real nodes
+            # do from such a state is not specified
+            ctx.log("deviation in a state where %s is already false after known finding(s) %s (not judged): step %d (%s) field '%s': %s" %
+                    (broken, before, k, mm["action"], mm["field"], mm["what"][:300]))
             ctx.notes["deviations_after_known_finding"] = ctx.notes.get("deviations_after_known_finding", 0) + 1
             continue
         if mm["field"] in FIELDS[pid]:
@@ -195,11 +205,11 @@ def report(ctx, pid, res, origin):
     return other
 
 
-def script_to_behaviour(ctx, script, label):
+def script_to_behaviour(ctx, script, label, cfg="shard-script.cfg"):
     """Follow an action sequence through the current (unmutated) specification: returns the behaviour with
     the expectations of the specification, cut where the specification cannot follow any more."""
     text = "\n".join(json.dumps(a) for a in script) + "\n"
-    r = ctx.tlc("OxiaShardSim", "shard-script.cfg", workers=1, label="script-" + label, cwd_files={"script.ndjson": text},
+    r = ctx.tlc("OxiaShardSim", cfg, workers=1, label="script-" + label, cwd_files={"script.ndjson": text},
                 seed=False, timeout=300)
     pre = '<<"RUN", "'
     last = None
@@ -221,7 +231,7 @@ def witness_runs(ctx, path):
             if not f.endswith(".json"):
                 continue
             w = json.load(open(os.path.join(wdir, f)))
-            beh = script_to_behaviour(ctx, w["script"], f[:-5])
+            beh = script_to_behaviour(ctx, w["script"], f[:-5], w.get("cfg", "shard-script.cfg"))
             if len(beh) < len(w["script"]):
                 ctx.log("witness %s: the specification follows %d of %d steps" % (f, len(beh), len(w["script"])))
             if beh:
@@ -278,6 +288,8 @@ def witness_continuations(ctx, path, per_witness):
             if not f.endswith(".json"):
                 continue
             w = json.load(open(os.path.join(wdir, f)))
+            if "cfg" in w:
+                continue   # witnesses of another configuration (e.g. 5 nodes) are replayed as they are
             depth = len(w["script"]) + 22
             cfg = re.sub(r"(?m)^(\s*MaxDepth\s*=\s*).*$", r"\g<1>%d" % depth, base)
             cp = os.path.join(ctx.scratch, "wsim-%s.cfg" % f[:-5])
@@ -495,6 +507,100 @@ def replay_file(ctx, pid, path):
         ctx.log("unknown replay format")
 
 
+def write_pipe(ctx, pid):
+    """The public write path as the clients see it (C02/C08: every caller gets the response to its own request,
+    requests of one stream are applied in the order sent): WritePipe.tla is model-checked (2 streams, 2 keys,
+    conditional puts and deletes) and recorded executions of PIPELINED write streams against a real standalone
+    server's gRPC surface are validated by TLC (WritePipeTrace.tla)."""
+    import subprocess
+    quick = ctx.tier == "quick"
+    r = ctx.tlc("WritePipeMC", "writepipe-mc.cfg", label="writepipe-mc", timeout=600)
+    ctx.log("WritePipeMC: %d distinct states, %d transitions; PairedByPosition, VersionsUnique, LiveIsReported hold" % (r.distinct, r.generated))
+    binp = ctx.go_build("pipecheck")
+    accepted = 0
+    for k in range(1 if quick else 8):
+        tf = os.path.join(ctx.scratch, "pipe-%d.ndjson" % k)
+        p = subprocess.run([binp, "-seed", str(ctx.seed * 100 + k), "-rounds", "150" if quick else "400", "-out", tf],
+                           capture_output=True, text=True, timeout=600)
+        if p.returncode != 0:
+            raise vf.Inconclusive("pipecheck failed (exit %d): %s" % (p.returncode, p.stderr[-400:]))
+        lines = open(tf).read().splitlines()
+        r = ctx.tlc("WritePipeTrace", "writepipe-trace.cfg", files=[(tf, "trace.ndjson")], workers=1, deque=True,
+                    label="writepipe-%d" % k, seed=False, allow_violation=True, timeout=900)
+        if r.ok:
+            accepted += sum(1 for x in lines if '"round"' in x)
+            continue
+        hw = 0
+        for l in r.out.splitlines():
+            if l.startswith('<<"REJECTED"'):
+                hw = int(l.split(",")[1])
+        bad = max(0, min(hw, len(lines)) - 1)
+        start = max(j for j in range(bad + 1) if '"ev":"round"' in lines[j])
+        end = next((j for j in range(bad + 1, len(lines)) if '"ev":"round"' in lines[j]), len(lines))
+        hist = [json.loads(x) for x in lines[start:end]]
+        short = ["%s s%d #%d %s %s exp=%s -> %s %s" % (h["ev"], h["s"], h["k"], h["kind"], h["key"], h["exp"], h.get("fstatus") or h.get("status"),
+                                                         h.get("fver") if h["ev"] == "send" else h.get("ver")) for h in hist[1:bad - start + 1]][-14:]
+        pth = ctx.save_replay("writepipe-%d-%d.json" % (k, start), {"round": hist, "rejected_at": bad - start})
+        ctx.violation("pipelined write streams on a real server: the responses (paired with the requests by position) and the "
+                      "final store are not explained by applying each stream's requests in the order sent (WritePipe.tla); "
+                      "rejected at event #%d of the round: %s; events before it: %s"
+                      % (bad - start, json.dumps(hist[bad - start]), "; ".join(short)), pth)
+        break
+    ctx.traces_validated += accepted
+    ctx.notes["writepipe_rounds_accepted"] = accepted
+    ctx.log("write streams: %d rounds of pipelined streams accepted by WritePipeTrace" % accepted)
+
+
+def lin_stress(ctx, binp):
+    """C02 on free-running real nodes: concurrent writers and readers against a 3-node shard while elections and
+    stream resets happen; the client history (real-time order of invocations and responses) must have a
+    linearization - TLC searches it (LinTraceLA.tla, pruned with the results the trace itself reports)."""
+    import subprocess
+    quick = ctx.tier == "quick"
+    accepted = 0
+    for k in range(1 if quick else 10):
+        hf = os.path.join(ctx.scratch, "linstress-%d.ndjson" % k)
+        try:
+            p = subprocess.run([binp, "linstress", "-seed", str(ctx.seed * 100 + k), "-episodes", "300", "-out", hf],
+                               capture_output=True, text=True, timeout=300)
+        except subprocess.TimeoutExpired:
+            ctx.log("linstress run %d timed out (skipped)" % k)
+            continue
+        if p.returncode != 0 or not os.path.exists(hf):
+            ctx.log("linstress run %d failed (exit %d): %s" % (k, p.returncode, p.stderr[-300:]))
+            continue
+        lines = open(hf).read().splitlines()
+        while lines:
+            tp = os.path.join(ctx.scratch, "linstress-part.ndjson")
+            open(tp, "w").write("\n".join(lines) + "\n")
+            r = ctx.tlc("LinTraceLA", "lin-trace-la.cfg", files=[(tp, "trace.ndjson")], workers=1, deque=True,
+                        label="linstress-%d" % k, seed=False, allow_violation=True, timeout=600)
+            if r.ok:
+                accepted += sum(1 for x in lines if '"reset"' in x)
+                break
+            hw = 0
+            for l in r.out.splitlines():
+                if l.startswith('<<"REJECTED"'):
+                    hw = int(l.split(",")[1])
+            bad = max(0, min(hw, len(lines)) - 1)
+            start = max(j for j in range(bad + 1) if '"reset"' in lines[j])
+            end = next((j for j in range(bad + 1, len(lines)) if '"reset"' in lines[j]), len(lines))
+            hist = [json.loads(x) for x in lines[start:end]]
+            ev = hist[bad - start]
+            pth = ctx.save_replay("linstress-%d-%d.json" % (k, start), {"history": hist, "rejected_at": bad - start})
+            ctx.violation("client history of free-running real nodes (concurrent writers/readers, elections) is not "
+                          "linearizable: event #%d %s op %s on node %s returned %s; the acknowledged writes before it: %s"
+                          % (bad - start, ev.get("ev"), ev.get("op"), ev.get("node"), ev.get("res"),
+                             [h["op"] for h in hist[:bad - start] if h["ev"] == "retw"][-20:]), pth)
+            accepted += sum(1 for x in lines[:start] if '"reset"' in x)
+            lines = lines[end:]
+            if len(ctx.violations) >= 3:
+                break
+    ctx.traces_validated += accepted
+    ctx.notes["linstress_episodes_accepted"] = accepted
+    ctx.log("linstress: %d concurrent client histories accepted by LinTraceLA" % accepted)
+
+
 def stress_traces(ctx, pid, binp):
     """Free-running real nodes (3-node shard, concurrent writers, repeated elections and stream resets, nothing
     gated): the schedules are the Go scheduler's, the verdict is TLC's on the recorded controller events."""
@@ -556,6 +662,9 @@ def run(ctx, pid):
         validate_node_traces(ctx, pid, res.get("nodetraces", []), "sim")
     if pid == "C02":
         linearizable(ctx, res, "sim")
+        lin_stress(ctx, binp)
+    if pid in ("C02", "C08"):
+        write_pipe(ctx, pid)
     # the same with a spare node and a node swap (ensemble change, removed node deleted after the election)
     r = ctx.tlc("OxiaShardSim", "shard-runs-swap.cfg", simulate="num=%d" % (num // 4), depth=56, workers=1, label="simswap")
     sruns = os.path.join(ctx.scratch, "runs-swap.ndjson")
